@@ -1161,20 +1161,42 @@ func (r *renderer) b(b *B) string {
 	return "true"
 }
 
+// conRec is a constraint with the variables it mentions.
+type conRec struct {
+	b     *B
+	atoms map[int]bool
+	vars  map[int]bool
+}
+
+func (p *Path) mkCon(b *B) conRec {
+	c := conRec{b: b, atoms: map[int]bool{}, vars: map[int]bool{}}
+	p.collectVars(b, c.atoms, c.vars)
+	return c
+}
+
+type linkRec struct {
+	l     atoiLink
+	atoms map[int]bool
+}
+
+func (p *Path) linkRecs() []linkRec {
+	var lks []linkRec
+	for _, l := range p.links {
+		k := linkRec{l: l, atoms: map[int]bool{}}
+		for _, s := range p.res(l.s) {
+			if s.atom != 0 {
+				k.atoms[s.atom] = true
+			}
+		}
+		lks = append(lks, k)
+	}
+	return lks
+}
+
 // check decides satisfiability of pc && extra. slice: cone of influence of extra only.
 // exact: emit exact string<->integer links. model: return a model of all live variables.
 func (p *Path) check(extra []*B, slice, exact, model, important bool) (Tri, map[string]string, string) {
-	type con struct {
-		b     *B
-		atoms map[int]bool
-		vars  map[int]bool
-	}
-	var cons []con
-	mk := func(b *B) con {
-		c := con{b: b, atoms: map[int]bool{}, vars: map[int]bool{}}
-		p.collectVars(b, c.atoms, c.vars)
-		return c
-	}
+	var cons, ex []conRec
 	for _, b := range p.pc {
 		s := p.simp(b)
 		if s.k == BTrue {
@@ -1183,9 +1205,8 @@ func (p *Path) check(extra []*B, slice, exact, model, important bool) (Tri, map[
 		if s.k == BFalse {
 			return Unsat, nil, "syntactic"
 		}
-		cons = append(cons, mk(s))
+		cons = append(cons, p.mkCon(s))
 	}
-	var ex []con
 	for _, b := range extra {
 		s := p.simp(b)
 		if s.k == BTrue {
@@ -1194,151 +1215,205 @@ func (p *Path) check(extra []*B, slice, exact, model, important bool) (Tri, map[
 		if s.k == BFalse {
 			return Unsat, nil, "syntactic"
 		}
-		ex = append(ex, mk(s))
+		ex = append(ex, p.mkCon(s))
 	}
-	// links as connectors
-	type lk struct {
-		l     atoiLink
-		atoms map[int]bool
-	}
-	var lks []lk
-	for _, l := range p.links {
-		k := lk{l: l, atoms: map[int]bool{}}
-		for _, s := range p.res(l.s) {
-			if s.atom != 0 {
-				k.atoms[s.atom] = true
-			}
+	lks := p.linkRecs()
+	if !slice {
+		if model {
+			return p.solveComponents(append(cons, ex...), lks, exact, important)
 		}
-		lks = append(lks, k)
+		return p.renderSolve(append(cons, ex...), lks, nil, nil, exact, false, important)
 	}
 	selAtoms, selVars := map[int]bool{}, map[int]bool{}
+	for _, c := range ex {
+		for a := range c.atoms {
+			selAtoms[a] = true
+		}
+		for v := range c.vars {
+			selVars[v] = true
+		}
+	}
+	sel, selL := p.closure(cons, lks, selAtoms, selVars)
+	defVars := map[int]bool{}
+	for v := range selVars {
+		if p.ivars[v].def != nil && !p.ivars[v].bound {
+			defVars[v] = true // a refined interval of a defined variable carries information
+		}
+	}
+	return p.renderSolve(append(sel, ex...), selL, nil, defVars, exact, model, important)
+}
+
+// closure selects the constraints and links transitively connected with the given variables.
+func (p *Path) closure(cons []conRec, lks []linkRec, selAtoms, selVars map[int]bool) ([]conRec, []linkRec) {
 	use := make([]bool, len(cons))
 	useLk := make([]bool, len(lks))
-	if slice {
-		for _, c := range ex {
-			for a := range c.atoms {
-				selAtoms[a] = true
-			}
-			for v := range c.vars {
-				selVars[v] = true
+	hitSets := func(atoms, vars map[int]bool) bool {
+		for a := range atoms {
+			if selAtoms[a] {
+				return true
 			}
 		}
-		for changed := true; changed; {
-			changed = false
-			for i, c := range cons {
-				if use[i] {
-					continue
-				}
-				hit := false
-				for a := range c.atoms {
-					if selAtoms[a] {
-						hit = true
-						break
-					}
-				}
-				if !hit {
-					for v := range c.vars {
-						if selVars[v] {
-							hit = true
-							break
-						}
-					}
-				}
-				if hit {
-					use[i] = true
-					changed = true
-					for a := range c.atoms {
-						selAtoms[a] = true
-					}
-					for v := range c.vars {
-						selVars[v] = true
-					}
-				}
-			}
-			// definitions connect a defined variable with what it is defined from
-			for _, dv := range p.ivars[1:] {
-				if dv.def == nil || dv.bound {
-					continue
-				}
-				da, dvs := map[int]bool{}, map[int]bool{}
-				p.markVar(dv.id, da, dvs)
-				if selVars[dv.id] {
-					for a := range da {
-						if !selAtoms[a] {
-							selAtoms[a] = true
-							changed = true
-						}
-					}
-					for v := range dvs {
-						if !selVars[v] {
-							selVars[v] = true
-							changed = true
-						}
-					}
-					continue
-				}
-				hit := false
-				for a := range da {
-					if selAtoms[a] {
-						hit = true
-						break
-					}
-				}
-				if !hit {
-					for v := range dvs {
-						if selVars[v] {
-							hit = true
-							break
-						}
-					}
-				}
-				if hit && (dv.lo != dv.defLo || dv.hi != dv.defHi || p.depVar[dv.id]) {
-					selVars[dv.id] = true
-					changed = true
-				}
-			}
-			for i, k := range lks {
-				if useLk[i] {
-					continue
-				}
-				hit := selVars[k.l.v]
-				for a := range k.atoms {
-					if selAtoms[a] {
-						hit = true
-					}
-				}
-				if hit {
-					useLk[i] = true
-					changed = true
-					selVars[k.l.v] = true
-					for a := range k.atoms {
-						selAtoms[a] = true
-					}
-				}
+		for v := range vars {
+			if selVars[v] {
+				return true
 			}
 		}
-	} else {
-		for i := range use {
-			use[i] = true
+		return false
+	}
+	addSets := func(atoms, vars map[int]bool) {
+		for a := range atoms {
+			selAtoms[a] = true
 		}
-		for i := range useLk {
-			useLk[i] = true
+		for v := range vars {
+			selVars[v] = true
 		}
 	}
-	r := &renderer{p: p, atoms: map[int]bool{}, lens: map[int]bool{}, vars: map[int]bool{}}
-	var asserts []string
-	for i, c := range cons {
-		if use[i] {
-			asserts = append(asserts, r.b(c.b))
-		}
+	type defRec struct {
+		id    int
+		atoms map[int]bool
+		vars  map[int]bool
 	}
-	for _, c := range ex {
-		asserts = append(asserts, r.b(c.b))
-	}
-	for i, k := range lks {
-		if !useLk[i] {
+	var defs []defRec
+	for _, dv := range p.ivars[1:] {
+		if dv.def == nil || dv.bound {
 			continue
 		}
+		d := defRec{id: dv.id, atoms: map[int]bool{}, vars: map[int]bool{}}
+		p.markVar(dv.id, d.atoms, d.vars)
+		defs = append(defs, d)
+	}
+	useDef := make([]bool, len(defs))
+	for changed := true; changed; {
+		changed = false
+		for i, c := range cons {
+			if !use[i] && hitSets(c.atoms, c.vars) {
+				use[i] = true
+				changed = true
+				addSets(c.atoms, c.vars)
+			}
+		}
+		for i, d := range defs {
+			if !useDef[i] && hitSets(d.atoms, d.vars) {
+				useDef[i] = true
+				changed = true
+				addSets(d.atoms, d.vars)
+			}
+		}
+		for i, k := range lks {
+			if useLk[i] {
+				continue
+			}
+			if selVars[k.l.v] || hitSets(k.atoms, nil) {
+				useLk[i] = true
+				changed = true
+				selVars[k.l.v] = true
+				addSets(k.atoms, nil)
+			}
+		}
+	}
+	var sel []conRec
+	for i, c := range cons {
+		if use[i] {
+			sel = append(sel, c)
+		}
+	}
+	var selL []linkRec
+	for i, k := range lks {
+		if useLk[i] {
+			selL = append(selL, k)
+		}
+	}
+	return sel, selL
+}
+
+// solveComponents finds a model of all constraints by solving each connected component on its
+// own (independent components have independent models) and merging the results.
+func (p *Path) solveComponents(cons []conRec, lks []linkRec, exact, important bool) (Tri, map[string]string, string) {
+	merged := map[string]string{}
+	done := make([]bool, len(cons))
+	coveredA, coveredV := map[int]bool{}, map[int]bool{}
+	hows := ""
+	solveFrom := func(atoms, vars map[int]bool) (Tri, string) {
+		selA, selV := map[int]bool{}, map[int]bool{}
+		for a := range atoms {
+			selA[a] = true
+		}
+		for v := range vars {
+			selV[v] = true
+		}
+		var rest []conRec
+		var idx []int
+		for i, c := range cons {
+			if !done[i] {
+				rest = append(rest, c)
+				idx = append(idx, i)
+			}
+		}
+		sel, selL := p.closure(rest, lks, selA, selV)
+		for _, c := range sel {
+			for j, r := range rest {
+				if r.b == c.b {
+					done[idx[j]] = true
+				}
+			}
+		}
+		r, m, how := p.renderSolve(sel, selL, selA, selV, exact, true, important)
+		if r != Sat {
+			return r, how
+		}
+		for k, v := range m {
+			merged[k] = v
+		}
+		for a := range selA {
+			coveredA[a] = true
+		}
+		for v := range selV {
+			coveredV[v] = true
+		}
+		return Sat, how
+	}
+	for i, c := range cons {
+		if done[i] {
+			continue
+		}
+		r, how := solveFrom(c.atoms, c.vars)
+		if r != Sat {
+			return r, nil, how
+		}
+		if hows == "" || how != "witness-guess" {
+			hows = how
+		}
+	}
+	// variables no constraint mentions: any value of their own domain
+	for _, a := range p.atoms[1:] {
+		if !a.bound && p.ahi(a) > 0 && !coveredA[a.id] {
+			if r, how := solveFrom(map[int]bool{a.id: true}, nil); r != Sat {
+				return r, nil, how
+			}
+		}
+	}
+	for _, v := range p.ivars[1:] {
+		if !v.bound && v.atom == 0 && !coveredV[v.id] {
+			if r, how := solveFrom(nil, map[int]bool{v.id: true}); r != Sat {
+				return r, nil, how
+			}
+		}
+	}
+	if hows == "" {
+		hows = "witness-guess"
+	}
+	return Sat, merged, hows
+}
+
+// renderSolve emits the given constraints (plus declarations, definitions and links) and
+// decides them: concrete witness guess first, then the solver portfolio.
+func (p *Path) renderSolve(cons []conRec, lks []linkRec, needAtoms, needVars map[int]bool, exact, model, important bool) (Tri, map[string]string, string) {
+	r := &renderer{p: p, atoms: map[int]bool{}, lens: map[int]bool{}, vars: map[int]bool{}}
+	var asserts []string
+	for _, c := range cons {
+		asserts = append(asserts, r.b(c.b))
+	}
+	for _, k := range lks {
 		r.vars[k.l.v] = true
 		if exact {
 			asserts = append(asserts, "(= v"+strconv.Itoa(k.l.v)+" (str.to_int "+r.nf(k.l.s)+"))")
@@ -1346,27 +1421,26 @@ func (p *Path) check(extra []*B, slice, exact, model, important bool) (Tri, map[
 			r.nf(k.l.s) // declare atoms
 		}
 	}
-	if model {
-		for _, a := range p.atoms[1:] {
-			if !a.bound && p.ahi(a) > 0 {
-				if _, single := a.cls.single(); single && a.re == nil && len(a.excl) == 0 {
-					r.lens[a.id] = true // content is determined by the length
-				} else {
-					r.atoms[a.id] = true
-				}
-			}
+	for a := range needAtoms {
+		at := p.atoms[a]
+		if at.bound || p.ahi(at) == 0 {
+			continue
 		}
-		for _, v := range p.ivars[1:] {
-			if !v.bound && v.atom == 0 {
-				r.vars[v.id] = true
-			}
+		if _, single := at.cls.single(); single && at.re == nil && len(at.excl) == 0 {
+			r.lens[a] = true // content is determined by the length
+		} else {
+			r.atoms[a] = true
 		}
 	}
-	if slice {
-		for v := range selVars {
-			if p.ivars[v].def != nil && !p.ivars[v].bound {
-				r.vars[v] = true
-			}
+	for v := range needVars {
+		iv := p.ivars[v]
+		if iv.bound {
+			continue
+		}
+		if iv.atom != 0 {
+			r.lens[iv.atom] = true
+		} else {
+			r.vars[v] = true
 		}
 	}
 	// definitions of non-linear variables (may pull in more variables)
@@ -1457,14 +1531,9 @@ func (p *Path) check(extra []*B, slice, exact, model, important bool) (Tri, map[
 	}
 	if p.eng.cfg.guessTries > 0 {
 		if _, cached := queryCache.Load(sb.String()); !cached || model {
-			var gc []*B
+			gc := make([]*B, len(cons))
 			for i, c := range cons {
-				if use[i] {
-					gc = append(gc, c.b)
-				}
-			}
-			for _, c := range ex {
-				gc = append(gc, c.b)
+				gc[i] = c.b
 			}
 			if gm := p.tryGuess(gc, aids, vids, sb.String()); gm != nil {
 				atomic.AddInt64(&p.eng.stats.guessed, 1)
@@ -1480,7 +1549,7 @@ func (p *Path) check(extra []*B, slice, exact, model, important bool) (Tri, map[
 	tq := time.Now()
 	res, m, how := p.pf.solve(sb.String(), want, important)
 	if d := time.Since(tq); d > 300*time.Millisecond && p.eng.cfg.verbose {
-		fmt.Fprintf(p.eng.logw, ";; SLOW query %.2fs (%v via %s, model=%v slice=%v)\n%s\n", d.Seconds(), res, how, model, slice, sb.String())
+		fmt.Fprintf(p.eng.logw, ";; SLOW query %.2fs (%v via %s, model=%v)\n%s\n", d.Seconds(), res, how, model, sb.String())
 	}
 	if p.eng.cfg.dumpQueries {
 		fmt.Fprintf(p.eng.logw, ";; ---- query (%v via %s)\n%s\n", res, how, sb.String())
